@@ -840,7 +840,6 @@ def r_mem_misc(name):
                                 '  __CPROVER_assert(__CPROVER_w_ok(p, 16), "maskmovdqu: the whole 16-byte destination range must be accessible");\n'
                                 '  for (int i = 0; i < 16; i++) if (AVM_L8(m, i) >> 7) ((uint8_t*)p)[i] = AVM_L8(a, i);\n'),
         '_mm_prefetch': ('void', [('const void*', 'p'), ('int', 'hint')], '  (void)p; (void)hint;\n'),
-        '__builtin_prefetch': ('void', [('const void*', 'p')], '  (void)p;\n'),
         # MXCSR: rounding control lives in __CPROVER_rounding_mode (same encoding as MXCSR.RC), the rest in model_mxcsr
         '_mm_getcsr': ('unsigned int', [], '  return (model_mxcsr & ~0x6000u) | (((unsigned)__CPROVER_rounding_mode & 3u) << 13);\n'),
         '_mm_setcsr': ('void', [('unsigned int', 'x')], '  model_mxcsr = x & ~0x6000u;\n  __CPROVER_rounding_mode = (int)((x >> 13) & 3u);\n'),
